@@ -91,20 +91,20 @@ pub open spec fn all_bytes(s: Seq<u8>, b: u8) -> bool { forall|i: int| 0 <= i < 
     W2 = r'^impl LineWhitespace \{'
     u.fn(TYPES, r'^    pub\(super\) fn len\(&self, recon_settings: &ReconstructionSettings\)', name='LineWhitespace::len', within_re=W2,
          edits=[vxgen.D5_GETTER_LEN],
-         requires=['sS(recon_settings.indentation_str).len() <= 255', 'sS(recon_settings.continuation_str).len() <= 255'],
+         requires=['sS(recon_settings.indentation_str).len() <= 255', 'sS(recon_settings.continuation_str).len() <= 65025'],
          ensures=['r as int == self.indentations as int * sS(recon_settings.indentation_str).len() + self.continuations as int * sS(recon_settings.continuation_str).len()'],
          opens_with='''    proof {
         assert(self.indentations as int * sS(recon_settings.indentation_str).len() <= 65535 * 255) by (nonlinear_arith)
             requires self.indentations <= 65535, sS(recon_settings.indentation_str).len() <= 255;
-        assert(self.continuations as int * sS(recon_settings.continuation_str).len() <= 65535 * 255) by (nonlinear_arith)
-            requires self.continuations <= 65535, sS(recon_settings.continuation_str).len() <= 255;
+        assert(self.continuations as int * sS(recon_settings.continuation_str).len() <= 65535 * 65025) by (nonlinear_arith)
+            requires self.continuations <= 65535, sS(recon_settings.continuation_str).len() <= 65025;
     }''')
     u.fn(TYPES, r'^    pub\(super\) fn zero\(\)', name='LineWhitespace::zero', within_re=W2,
          ensures=['r.indentations == 0', 'r.continuations == 0'])
     u.raw('}\n}\n')
 
     # ---- front-end: user-facing settings -> widths and strings (C10: "a unit is one tab or tab_width spaces",
-    #      "continuation_indents x continuations", "saturation at the u8 boundary")
+    #      "continuation_indents x continuations")
     u.raw('''pub mod frontend {
 use vstd::prelude::*;
 use vstd::string::*;
@@ -127,13 +127,15 @@ fn line_ending_into(value: LineEnding) -> (r: crate::lang::LineEnding) { unimple
          within_re=r'^impl From<&FormattingConfig> for ReconstructionSettings \{',
          edits=[('fn from(val: &FormattingConfig) -> Self', 'fn reconstruction_settings_from(val: &FormattingConfig) -> ReconstructionSettings', 'D4'),
                 ('val.line_ending.into()', 'line_ending_into(val.line_ending)', 'D12')],
+         hints=[{'at': 'let (indent_width, continuation_width, tab) =', 'where': 'before',
+                 'text': '        proof { assert(val.continuation_indents as int * val.tab_width as int <= 65025) by (nonlinear_arith)\n'
+                         '            requires val.continuation_indents <= 255, val.tab_width <= 255; }'}],
          ensures=[
              # one indentation unit is one tab, or tab_width spaces
              'val.use_tabs ==> sS(r.indentation_str).len() == 1 && all_bytes(sS(r.indentation_str), 0x09)',
              '!val.use_tabs ==> sS(r.indentation_str).len() == val.tab_width as int && all_bytes(sS(r.indentation_str), 0x20)',
-             # one continuation is continuation_indents units, saturating at 255 columns
+             # one continuation is continuation_indents units - for every setting, with no cap (C08: indentation is a whole number of units)
              'val.use_tabs ==> sS(r.continuation_str).len() == val.continuation_indents as int && all_bytes(sS(r.continuation_str), 0x09)',
-             '!val.use_tabs ==> all_bytes(sS(r.continuation_str), 0x20) && sS(r.continuation_str).len() == '
-             '(if val.continuation_indents as int * val.tab_width as int > 255 { 255int } else { val.continuation_indents as int * val.tab_width as int })',
+             '!val.use_tabs ==> all_bytes(sS(r.continuation_str), 0x20) && sS(r.continuation_str).len() == val.continuation_indents as int * val.tab_width as int',
          ])
     u.raw('}\nfn main() {}\n}\n')
